@@ -699,7 +699,11 @@ class TPAnalysis:
                 if via_clear: continue
                 inst = f'{nm}(): a queued task it destroys leaves the queue, a task it takes out of the queue is destroyed'
                 if dl and not rm: k = (False, inst, dl[0].site, f'{nm}() destroys a queued task and leaves its pointer in m_queue: a worker takes the pointer, runs the destroyed object and deletes it a second time')
-                elif rm and not dl and any(e.kind == 'delete' for e in E): k = (True, inst, rm[0].site, '')          # the task that was looked up in the queue (by the caller's pointer) is destroyed
+                elif rm and not dl and any(e.kind == 'delete' for e in E):
+                    # the task that was looked up in the queue (by the caller's pointer) is destroyed.  A removal by position has removed it; a removal
+                    # by value removes nothing when a worker has taken the task in the meantime, and whether the delete depends on that is not followed
+                    byval = [e for e in rm if e.name.split('::')[-1] in ('remove', 'remove_if', 'erase_if')]
+                    k = (True, inst, rm[0].site, '') if not byval else (None, inst, byval[0].site, f'{nm}() removes the task by value (`{byval[0].name.split("::")[-1]}` removes nothing when a worker has already taken it) and deletes it: whether the delete happens only when the task was still queued, in the same critical section, is not followed')
                 elif rm and not dl: k = (None, inst, rm[0].site, f'{nm}() takes tasks out of the queue (`{rm[0].name.split("::")[-1]}`) without running or destroying them: who destroys them afterwards is not followed')
                 else: k = (True, inst, rm[0].site, '')
                 if k in seen: continue
